@@ -20,7 +20,7 @@ for pid, d in CHECKS.items():
     })
 m = {
     'version': 1,
-    'setup_cmd': '/venv/bin/python -c "import hypothesis" 2>/dev/null || /venv/bin/pip install --no-index --find-links /opt/veriftools/wheels hypothesis',
+    'setup_cmd': '/venv/bin/python -c "import hypothesis, atheris" 2>/dev/null || /venv/bin/pip install --no-index --find-links /opt/veriftools/wheels hypothesis atheris',
     'hooks': {
         'guard': 'EMD_VERIF_TRACE',
         'enable': 'emd is an editable install of /repo: checks start fresh interpreters with /repo first on sys.path; trace hooks are switched on per call by setting EMD_VERIF_TRACE=<directory> in the environment of the process that calls emd',
@@ -29,9 +29,9 @@ m = {
         'add_only': True,
     },
     'engines': [{'name': 'vp', 'path': 'vp/', 'serves_properties': sorted(CHECKS),
-                 'kind_free_text': 'Hypothesis strategies / exhaustive enumerators + explicit oracles (reference models, metamorphic and differential relations), sharded over subprocesses; see DESIGN.md section 1'}],
+                 'kind_free_text': 'Hypothesis strategies / exhaustive enumerators + explicit oracles (reference models, metamorphic and differential relations), sharded over subprocesses; for cheap clauses a second, coverage-guided engine (atheris/libFuzzer feeding the same Hypothesis strategies through fuzz_one_input, emd instrumented); see DESIGN.md section 1'}],
     'checks': checks,
-    'notes': 'All checks: exit 0 held / exit 1 with VIOLATION line / exit 2 harness error or inconclusive. Known findings: known_findings.txt. VERIF_SEED selects the Hypothesis seed; VERIF_REPO overrides /repo for mutation experiments only.',
+    'notes': 'All checks: exit 0 held / exit 1 with VIOLATION line / exit 2 harness error or inconclusive. Known findings: known_findings.txt. VERIF_SEED selects the Hypothesis seed and the libFuzzer seed / starting corpus; VERIF_NO_FUZZ=1 switches the coverage-guided shards off; VERIF_REPO overrides /repo for mutation experiments only.',
     'not_applicable': NOT_APPLICABLE,
 }
 json.dump(m, open(os.path.join(HERE, 'MANIFEST.json'), 'w'), indent=1)
